@@ -121,7 +121,8 @@ def run(prog: Program, res: Result) -> None:
     res.rules = ["R1 only seeded sources on the run path of each optimizer (source table)",
                  "R2 np.random.seed(task.seed) is the only seeding call and precedes every hook/draw in optimize()",
                  "R3 no draw in constructors / set_config_parameters / module and class bodies / defaults",
-                 "R4 Task.seed is int-annotated (typed sink of np.random.seed)"]
+                 "R4 Task.seed is int-annotated (typed sink of np.random.seed)",
+                 "R5 no sequence is made from a set whose elements are not provably ints (hash-seed dependent order)"]
     res.undecided = ["numpy's own determinism and float reproducibility across machines", "the user's objective"]
     closed_world(prog, res)
     resolver = Resolver(prog, None)
@@ -270,6 +271,110 @@ def run(prog: Program, res: Result) -> None:
     res.count("optimizer-contexts", n_ctx)
     res.floor("optimizer-contexts", 84)
 
+    # ------------------------------------------------------------------ R5 hash-ordered iteration
+    # The iteration order of a set of str (or of objects) depends on per-process hash randomisation: a sequence made from such
+    # a set differs "in different processes" with the same seed.  Sets of ints (built from range()) iterate deterministically.
+    n_sets = 0
+    for fi in prog.all_functions():
+        for n in own_nodes(fi):
+            if not _is_set_expr(fi, n):
+                continue
+            n_sets += 1
+            how = _order_exposed(n)
+            if how is None:
+                continue
+            ints = _int_set(fi, n)
+            key = construct_key(prog, n, fi.module)
+            res.ob(ints, f"{fi.module.relpath}:{n.lineno} `{norm(n, 50)}` ordered by {how}: elements are ints from range()" if ints else None, key)
+            if not ints:
+                res.add(Finding(P, "C07.R5-hash-ordered-iteration", key, f"{fi.module.relpath}:{n.lineno}",
+                                f"`{norm(n, 60)}` in {fi.qualname} is turned into a sequence ({how}) without sorting and its elements "
+                                f"are not provably ints: the order of a set of str depends on the per-process hash seed, so the same "
+                                f"task seed gives different runs in different processes"))
+    res.count("set-expressions", n_sets)
+    res.floor("set-expressions", 20)
+
+
+def _is_set_expr(fi, n) -> bool:
+    if isinstance(n, (ast.Set, ast.SetComp)):
+        return True
+    if isinstance(n, ast.Call) and isinstance(n.func, ast.Name) and n.func.id in ("set", "frozenset"):
+        return True
+    if isinstance(n, ast.BinOp) and isinstance(n.op, (ast.Sub, ast.BitOr, ast.BitAnd, ast.BitXor)) \
+            and (_is_set_expr(fi, n.left) or _is_set_expr(fi, n.right)):
+        return True
+    return False
+
+
+_ORDER_FREE = {"sorted", "set", "frozenset", "len", "sum", "min", "max", "any", "all", "Counter", "collections.Counter"}
+
+
+def _order_exposed(n):
+    """How the set expression n is turned into an ordered thing by its direct consumer, or None (sorted / membership / len /
+    a larger set expression / a plain binding whose uses are not followed)."""
+    from ..model import parent
+    p = parent(n)
+    if isinstance(p, ast.BinOp) and isinstance(p.op, (ast.Sub, ast.BitOr, ast.BitAnd, ast.BitXor)):
+        return None             # the enclosing set expression is examined itself
+    if isinstance(p, ast.Call) and n in p.args:
+        d = dotted(p.func) or ""
+        if d in ("list", "tuple", "enumerate", "iter", "np.array", "np.asarray", "zip", "map", "dict.fromkeys", "next"):
+            return f"{d}(..)"
+        if d.endswith((".join", ".extend")) or d in ("np.random.choice", "np.random.permutation", "np.random.shuffle"):
+            return f"{d}(..)"
+        return None
+    if isinstance(p, ast.comprehension) and p.iter is n:
+        comp = parent(p)
+        if isinstance(comp, (ast.SetComp, ast.DictComp)):
+            return None
+        cp = parent(comp)
+        if isinstance(cp, ast.Call) and comp in cp.args and (dotted(cp.func) or "") in _ORDER_FREE:
+            return None
+        if isinstance(comp, ast.GeneratorExp) and not (isinstance(cp, ast.Call) and (dotted(cp.func) or "") in
+                                                       ("list", "tuple", "np.array", "np.fromiter", "enumerate")
+                                                       or (isinstance(cp, ast.Call) and (dotted(cp.func) or "").endswith(".join"))):
+            return None         # a generator whose consumer is not known to keep the order
+        return "a comprehension"
+    if isinstance(p, ast.For) and p.iter is n:
+        return "a for loop"
+    if isinstance(p, ast.Assign) and p.value is n and len(p.targets) == 1 and isinstance(p.targets[0], ast.Name):
+        # a local bound to the set: look at how the local is consumed
+        fn = p
+        while fn is not None and not isinstance(fn, (ast.FunctionDef, ast.AsyncFunctionDef)):
+            fn = parent(fn)
+        name = p.targets[0].id
+        if fn is not None:
+            stores = [x for x in ast.walk(fn) if isinstance(x, ast.Name) and x.id == name and isinstance(x.ctx, ast.Store)]
+            if len(stores) == 1:
+                for x in ast.walk(fn):
+                    if isinstance(x, ast.Name) and x.id == name and isinstance(x.ctx, ast.Load):
+                        h = _order_exposed(x)
+                        if h:
+                            return f"{h} over the local `{name}`"
+        return None
+    if isinstance(p, ast.Starred):
+        return "unpacking"
+    return None
+
+
+def _int_set(fi, n) -> bool:
+    """elements provably ints: set(range(..)), a display / comprehension of int-valued index expressions is NOT assumed;
+    a difference / intersection whose left operand is an int set; a union / xor of two int sets"""
+    if isinstance(n, ast.Call) and isinstance(n.func, ast.Name) and n.func.id in ("set", "frozenset"):
+        if not n.args:
+            return True
+        a = n.args[0]
+        if isinstance(a, ast.Call) and isinstance(a.func, ast.Name) and a.func.id == "range":
+            return True
+        if isinstance(a, ast.Call) and dotted(a.func) in ("np.arange", "numpy.arange"):
+            return True
+        return False
+    if isinstance(n, ast.BinOp):
+        if isinstance(n.op, (ast.Sub, ast.BitAnd)):
+            return _is_set_expr(fi, n.left) and _int_set(fi, n.left)
+        return _is_set_expr(fi, n.left) and _is_set_expr(fi, n.right) and _int_set(fi, n.left) and _int_set(fi, n.right)
+    return False
+
 
 # ---------------------------------------------------------------------------------------------
 from ..selftest import V, run_battery  # noqa: E402
@@ -279,7 +384,12 @@ _A = "pyvolutionary/abstract.py"
 _H = "pyvolutionary/helpers.py"
 _ANCHOR = "        leader_position = np.array(self._best_agent.position)\n"
 _IMP = "import numpy as np\n\nfrom ..helpers import parse_obj_doc  # type: ignore\n"
+_MO = "pyvolutionary/models.py"
 VARIANTS = [
+    V("label-order-from-set", _MO, "        self.__unique_labels__ = sorted(set(y), key=lambda x: (isinstance(x, (int, float)), x))",
+      "        self.__unique_labels__ = list(set(y))", "C07.R5"),
+    V("twin-labels-sorted-plain", _MO, "        self.__unique_labels__ = sorted(set(y), key=lambda x: (isinstance(x, (int, float)), x))",
+      "        self.__unique_labels__ = sorted(set(y), key=lambda x: (not isinstance(x, str), x))", None),
     V("stdlib-shuffle-in-optimizer", _W, _ANCHOR, _ANCHOR + "        random.shuffle(self._population)\n", "C07.R1",
       more=[(_W, _IMP, "import random\n" + _IMP)]),
     V("default-rng-per-cycle", _W, _ANCHOR, _ANCHOR + "        rng = np.random.default_rng()\n        jitter = rng.random()\n", "C07.R1"),
